@@ -110,7 +110,7 @@ def cases(tier, seed):
 
 def describe(tier, seed):
     return {'rule': 'ramp sources (every step a distinct value) x 1-3 targets x per-edge delay in {none, 2dt, 3dt, 2.4dt, '
-                    '2.6dt, 5dt} for shared-source, parallel, shared-target, feedback, chain and two-operator-node topologies, two delayed Connectivity objects from one population variable x vectorize; euler '
+                    '2.6dt, 5dt} for shared-source, parallel, shared-target, feedback, chain and two-operator-node topologies, two delayed Connectivity objects from one population variable x vectorize, the delayed source also read by another operator of its own node; euler and (a slice) heun '
                     'trajectories of run() row by row vs the reference recurrence with explicit history (src[k-D], 0 before '
                     'start, undelayed edges src[k]); non-trivial = at least one delayed edge',
             'bounds': {'targets': 2 if tier == 'quick' else 3, 'steps': 14}}
